@@ -72,7 +72,9 @@ def tags_of(beh):
                     shape.append("A" if ai_pending else "h")
                     ai_pending = False
             t.add("%s-range:%s" % (k, "".join(shape)))
-        if k in ("Rebase", "CherryPick", "Amend", "MergeSquash", "Switch"):
+        if k == "IRebase":
+            t.add("irebase:%s" % "/".join(str(len(g)) for g in a["plan"]) + ":n%d" % a["n"])
+        if k in ("Rebase", "CherryPick", "Amend", "MergeSquash", "Switch", "IRebase", "CherryPickMany"):
             # what happened just before: pending work? how many commits on each side?
             t.add("%s:after:%s" % (k, beh[i - 1]["a"] if i else "-"))
     t.add("ncommits:%d" % sum(1 for a in beh if a["a"] == "Commit"))
